@@ -21,6 +21,7 @@ META = {
     "trusted_base": ["std slice::sort_by is a stable sort by the comparator", "C16 (the two comparators are the two CBOR orders)", "C10, C19 (what can reach `params`)"],
 }
 META["decides"] += ' (As built: one sort per ordering or one sort through a comparator value chosen by the ordering.)'
+META["decides"] += ' R-3 also: the key decoder appends extras in wire order and nothing re-orders `params` afterwards.'
 
 CANON = "key::CoseKey::canonicalize"
 SORT_BY = "alloc::slice::<impl [T]>::sort_by"
